@@ -8,7 +8,11 @@ Hostile == {"garbage", "bad_version", "bad_magic", "oversized", "datalen_short",
             "unknown_serializer", "unknown_msgtype", "undecodable_payload", "payload_wrong_shape",
             "trunc_prefix_close", "trunc_header_close", "trunc_ann_close", "trunc_payload_close",
             "unknown_object", "unknown_member", "private_member", "raises_plain", "raises_unserializable", "raises_str_raises",
-            "raises_in_oneway", "raises_in_batch", "security_payload", "huge_batch_shape"}
+            "raises_in_oneway", "raises_in_batch", "security_payload", "huge_batch_shape",
+            \* every header field at a boundary value; a negative annotation chunk length; a message cut short followed by a
+            \* reset instead of an orderly close; a reset on an idle connection; a message cut short followed by silence
+            \* (meaningful with a communication timeout only)
+            "hdr_boundary", "ann_negative", "trunc_reset", "reset_idle", "stall_partial"}
 Steps == [a : {"attack"}, who : {1, 2}, item : Hostile, pre : BOOLEAN]
          \cup [a : {"wcall", "aclose1", "aclose2", "fresh"}, who : {0}, item : {""}, pre : {FALSE}]
 VARIABLE h
